@@ -241,11 +241,35 @@ class C04Monitor(Monitor):
             if len(args) > 1:
                 self._check(w, a, args[1], "OnMethodStop/solution")
 
+    def _check_handed(self, w, a, where):
+        """Solutions handed out earlier (by Solve / GetResults) are objects the user still holds: whenever they are looked at
+        again they must report an evaluated point together with ITS value."""
+        if a.active and a.cb_depth == 0:
+            return
+        done = [c for c in a.calls if c.completed and c.phase != "probe"]
+        seen = set()
+        for s in a.solutions:
+            obj = s.get("obj")
+            if obj is None or id(obj) in seen:
+                continue
+            seen.add(id(obj))
+            rs = read_solution(obj)
+            if rs is None:
+                continue
+            pt, val = rs[0], rs[1]
+            hits = [c for c in done if c.y == pt]
+            if hits and not any(c.value == val for c in hits):
+                self.probe["handed_solutions_rechecked"] = self.probe.get("handed_solutions_rechecked", 0) + 1
+                w.flag(self.prop, "handed_solution_inconsistent", "%s at %s: a Solution handed out earlier (by %s) now reports value %r at %r, where the "
+                       "objective returned %r" % (a.aid, where, s.get("kind"), val, pt, hits[0].value), where)
+                return
+
     def on_op_end(self, w, a, op, outcome):
         if not a.created:
             return
-        if a.aborted == "float_exhausted":
+        if a.aborted == "float_exhausted" or a.solver is None:
             return
+        self._check_handed(w, a, "after_" + op["op"])
         try:
             cur = a.solver.GetResults()
         except BaseException as e:
